@@ -6,6 +6,7 @@ CONSTANTS Producers = {"p1"}
           SafeEnv = FALSE
           Locks = TRUE
           RealTime = FALSE
+          Disconnect = TRUE
           NMsgs = 2
           ScriptSet = {"noexec", "noapp"}
           Script2Set = {"none"}
